@@ -192,8 +192,9 @@ def _flag_guards(P, fid, node, flag, depth=0):
         if not pol and any(_reads_flag(t, a) for a in accept) and _negative_test(t):
             return "else-branch of %s" % ast.unparse(t)
     for t, pol in pyflow.early_exit_guards(func, node):
-        if any(_reads_flag(t, a) for a in accept) and _negative_test(t):
-            return "early exit `if %s`" % ast.unparse(t)
+        # (t, True): reached only when t holds (the exit was `if not t`); (t, False) with a negative comparison likewise
+        if any(_reads_flag(t, a) for a in accept) and (pol or _negative_test(t)):
+            return "early exit unless `%s`" % ast.unparse(t)
     if depth >= 2:
         return None
     # all call sites
